@@ -49,7 +49,9 @@ pub fn build_result_archive(
         .start_file("formulae.txt", FileOptions::default())
         .map_err(std::io::Error::from)?;
     for formula in formulae {
-        writeln!(zip_writer, "{formula}")?;
+        // one formula per line: a line break inside a formula (it is just white space for the parser)
+        // would shift all the following lines against the `formula-i` entries
+        writeln!(zip_writer, "{}", formula.replace(['\n', '\r'], " "))?;
     }
 
     zip_writer.finish().map_err(std::io::Error::from)?;
@@ -84,7 +86,9 @@ pub fn build_initial_archive(
         .start_file("formulae.txt", FileOptions::default())
         .map_err(std::io::Error::from)?;
     for formula in formulae {
-        writeln!(zip_writer, "{formula}")?;
+        // one formula per line: a line break inside a formula (it is just white space for the parser)
+        // would shift all the following lines against the `formula-i` entries
+        writeln!(zip_writer, "{}", formula.replace(['\n', '\r'], " "))?;
     }
 
     zip_writer.finish().map_err(std::io::Error::from)?;
